@@ -22,6 +22,9 @@
 //!   query_iter with values (prepare on all nodes, then the EXECUTE pager) and without (the QUERY pager);
 //!   execute_iter, execute_single_page, query_single_page(text, ()).
 //!
+//! Batch TYPE: every batch is Logged, Unlogged or COUNTER by (seed, task, i) - plain Session and CachingSession alike,
+//! prepared / unprepared-with-values / mixed statements, with and without an explicit timestamp.
+//!
 //! `via=caching`: the same writes go through a `CachingSession` (cache of 2 statements, so it keeps re-preparing):
 //! `execute_unpaged(text, values)`, `execute_iter(SELECT text, values)`, and `batch` with an UNPREPARED statement
 //! with values (-> `prepare_batch`), with a prepared one, and with both mixed. Every write also sets its own
@@ -118,6 +121,11 @@ fn sc_of(seed: u64, task: usize, i: usize) -> (Option<scylla::statement::SerialC
     use scylla::statement::SerialConsistency::*;
     let mut r = Rng::new(seed ^ ((task as u64) << 24) ^ ((i as u64) << 4) ^ 0x7363);
     *r.pick(&[(Some(Serial), Some(8u16)), (Some(LocalSerial), Some(9)), (None, None)])
+}
+
+fn bt_of(seed: u64, task: usize, i: usize) -> scylla::statement::batch::BatchType {
+    use scylla::statement::batch::BatchType::*;
+    [Logged, Unlogged, Counter, Counter][((seed >> 5) as usize + task * 7 + i / 2) % 4]
 }
 
 fn key_of(task: usize, i: usize) -> Vec<u8> {
@@ -368,7 +376,7 @@ pub fn run(words: &[&str], ctx: &mut Ctx) -> String {
                         st
                     };
                     let configured_batch = |stmts: Vec<scylla::statement::batch::BatchStatement>| {
-                        let mut b = Batch::new_with_statements(BatchType::Unlogged, stmts);
+                        let mut b = Batch::new_with_statements(bt_of(seed, task, i), stmts);
                         b.set_timestamp(ts);
                         b.set_consistency(cl);
                         b.set_serial_consistency(sc);
